@@ -27,6 +27,18 @@ func runFreshArray(p *core.Prog) *core.Result {
 	if err != nil {
 		return res.Fail(err)
 	}
+	setValues, err := p.GojaFunc("setArrayValues")
+	if err != nil {
+		return res.Fail(err)
+	}
+	storageField := map[*types.Var]bool{fValues: true}
+	for _, n := range []string{"length", "objCount"} {
+		f, err := p.Field(core.GojaPath, "arrayObject", n)
+		if err != nil {
+			return res.Fail(err)
+		}
+		storageField[f] = true
+	}
 	guards := map[*ssa.Function]bool{}
 	for _, n := range []string{"checkStdArrayObj", "checkStdArrayObjWithProto", "checkNewStdArrayObj", "checkStdArray", "checkStdArrayIter"} {
 		f, err := p.GojaMethod("Runtime", n)
@@ -40,9 +52,29 @@ func runFreshArray(p *core.Prog) *core.Result {
 		return isPtr && core.NamedOf(t) == arrT
 	}
 	// only arrays obtained from a guard are tracked (other code uses a.values as the object's own storage)
+	// a *arrayObject obtained by a guard call, or by asserting X.self.(*arrayObject) (a weaker
+	// "guard": it only establishes the storage kind, which script can change just as well)
+	isSelfAssert := func(o ssa.Value) *ssa.TypeAssert {
+		if ex, ok := o.(*ssa.Extract); ok && ex.Index == 0 {
+			o = ex.Tuple
+		}
+		ta, ok := o.(*ssa.TypeAssert)
+		if !ok || !tracked(ta.AssertedType) {
+			return nil
+		}
+		if ld, ok := ta.X.(*ssa.UnOp); ok && ld.Op == token.MUL {
+			if fa, ok := ld.X.(*ssa.FieldAddr); ok && core.FieldOf(fa) != nil && core.FieldOf(fa).Name() == "self" {
+				return ta
+			}
+		}
+		return nil
+	}
 	fromGuard := func(v ssa.Value) bool {
-		c, ok := core.Origin(v).(*ssa.Call)
-		return ok && guards[c.Call.StaticCallee()]
+		o := core.Origin(v)
+		if c, ok := o.(*ssa.Call); ok && guards[c.Call.StaticCallee()] {
+			return true
+		}
+		return isSelfAssert(o) != nil
 	}
 	root := func(v ssa.Value) string {
 		o := core.Origin(v)
@@ -92,6 +124,19 @@ func runFreshArray(p *core.Prog) *core.Result {
 					}
 					// element load through IndexAddr handled below (the IndexAddr itself)
 				}
+			case *ssa.Store:
+				// raw writes of the array's storage fields
+				if fa, ok := x.Addr.(*ssa.FieldAddr); ok && storageField[core.FieldOf(fa)] {
+					if k := root(fa.X); k != "" {
+						return []core.FreshUse{{Key: k, What: "raw store to ." + core.FieldOf(fa).Name()}}
+					}
+				}
+			case *ssa.Call:
+				if x.Call.StaticCallee() == setValues && len(x.Call.Args) > 0 {
+					if k := root(x.Call.Args[0]); k != "" {
+						return []core.FreshUse{{Key: k, What: "setArrayValues"}}
+					}
+				}
 			case *ssa.IndexAddr:
 				if k := valuesOwner(x.X); k != "" {
 					return []core.FreshUse{{Key: k, What: "element of the .values snapshot"}}
@@ -110,6 +155,23 @@ func runFreshArray(p *core.Prog) *core.Result {
 			if c, ok := in.(*ssa.Call); ok && guards[c.Call.StaticCallee()] {
 				if k := root(c); k != "" {
 					return []string{k}
+				}
+			}
+			if v, ok := in.(ssa.Value); ok {
+				if ta := isSelfAssert(v); ta != nil && ssa.Instruction(ta) == in {
+					for _, cand := range []ssa.Value{v} {
+						if k := root(cand); k != "" {
+							return []string{k}
+						}
+					}
+					// comma-ok form: the tracked value is the Extract
+					for _, r := range *ta.Referrers() {
+						if ex, ok := r.(*ssa.Extract); ok && ex.Index == 0 {
+							if k := root(ex); k != "" {
+								return []string{k}
+							}
+						}
+					}
 				}
 			}
 			return nil
